@@ -158,6 +158,9 @@ type byzScenario struct {
 	Build  func(w *rworld)
 	Limit  int
 	Sample int
+	// SharedPrefix > 0: all versions a sender shows for one round carry digests that agree on their first SharedPrefix bytes
+	// (the digest is whatever the message type supplies; the layer must tell two digests apart wherever they differ)
+	SharedPrefix int
 }
 
 // partitions2 lists the 2-partitions (both parts non-empty) of the given set; each unordered pair once.
@@ -518,6 +521,16 @@ func unitByzRbc(e common.Env, p *common.Part) {
 	p.Rule = "rbc.Receiver worlds with a Byzantine sender (id 1), 0..N-3 accomplices and >=2 honest parties; strategy catalogue x every 2-partition of the honest set x round; distinct key = (scenario, delivery-sequence hash); non-trivial when at least one Byzantine transmission was delivered to an honest party; N=3 (and N=4 up to the limit) enumerated by sleep-set DFS, the rest sampled"
 	p.Assumptions = append(p.Assumptions, "Byzantine transmissions are pre-scheduled per link (their interleaving with honest traffic is explored, their content is not adaptive)", "traffic towards Byzantine parties is not simulated at this level")
 	cat := byzCatalogue(e)
+	// every third scenario once more with digests that differ only behind a common prefix of 8 (resp. 31) bytes
+	for i, n := 0, len(cat); i < n; i += 3 {
+		c := cat[i]
+		c.SharedPrefix = []int{8, 31}[(i/3)%2]
+		c.Name += fmt.Sprintf(" (digests of one sender and round agree on their first %d bytes)", c.SharedPrefix)
+		if c.Limit > 2000 {
+			c.Limit = 2000
+		}
+		cat = append(cat, c)
+	}
 	p.Note("scenarios", len(cat))
 	for i, sc := range cat {
 		if !e.Mine(i) || p.ViolationCount() >= 3 {
@@ -527,7 +540,9 @@ func unitByzRbc(e common.Env, p *common.Part) {
 		p.Begin(sc.Name)
 		nw := func() dfs.World {
 			w := newRWorld(idsUpTo(sc.N), sc.Byz)
+			digestSharedPrefix = sc.SharedPrefix
 			sc.Build(w)
+			digestSharedPrefix = 0
 			return w
 		}
 		isByz := map[uint16]bool{}
